@@ -15,7 +15,8 @@ namespace CaddyModel.C11
 /-- names: 0 = "", 1 = "a.test" -/
 def wP : Params :=
   { q := fun d => d == 1, pub := fun d => d == 1, ip := fun _ => false, internal := fun _ => false,
-    loaded := fun _ => false, ts := fun _ => false, mw := fun a b => a == b }
+    loaded := fun _ => false, ts := fun _ => false, mw := fun a b => a == b,
+    hm := fun a b => a == b }
 
 def tcp (host : Bytes) (port : Nat) : Addr := ⟨0, host, port, port⟩
 
